@@ -1,1 +1,41 @@
 // Kani harnesses compiled as `mod verif_kani` inside /repo/src/server/pubd/rrdp.rs (cfg(kani) only).
+//
+// Kernel: RrdpServer::is_request_path_valid (filter in front of the RRDP file server).
+use super::*;
+use crate::api::roa::verif_kani::any_ascii;
+
+fn check_short<const N: usize>() {
+    let (buf, len) = any_ascii::<N>();
+    let Ok(s) = std::str::from_utf8(&buf[..len]) else { return };
+    let r = RrdpServer::is_request_path_valid(s);
+    assert!(r.is_none());
+    kani::cover!(len == N && buf[0] == b'/');
+    kani::cover!(len == N && buf[0] == b'.' && buf[1] == b'.');
+}
+
+/// Arbitrary short request paths: never a panic, never accepted (every
+/// acceptable path is at least 13 bytes long).
+// vk: timeout=900; bound=paths of 0..=3 ASCII bytes
+#[kani::proof]
+#[kani::unwind(6)]
+fn c16e_request_path_short_3() {
+    check_short::<3>();
+}
+
+// vk: tier=thorough; timeout=2400; bound=paths of 0..=4 ASCII bytes
+#[kani::proof]
+#[kani::unwind(7)]
+fn c16e_request_path_short_4() {
+    check_short::<4>();
+}
+
+// vk: tier=thorough; timeout=2400; bound=paths of 0..=5 ASCII bytes
+#[kani::proof]
+#[kani::unwind(8)]
+fn c16e_request_path_short_5() {
+    check_short::<5>();
+}
+
+#[cfg(test)]
+#[path = "/verif/.cache/playback/server_pubd_rrdp.rs"]
+mod playback;
